@@ -1,10 +1,12 @@
 /-
   C18 — generators can reach every allowed value, hit the edges, use fresh seeds.
-  (initial set; reachability theorems over the measured threshold tables are in
-  RapidProofs/Reach.lean)
+  Reachability: the measured geometric tables (regenerated from the real `genGeom` on every run)
+  have distinct break points — checked by kernel evaluation over all 65 tables — and therefore
+  every value of every unsigned range is produced by some two-word bit stream.
 -/
 import RapidProofs.Contracts
 import RapidModel.Generated.Thresholds
+import RapidProofs.Reach
 
 namespace Rapid.C18
 
@@ -24,5 +26,35 @@ theorem tri_strict (a b : Nat) (h : a < b) : a * (a + 1) / 2 < b * (b + 1) / 2 :
           simp [Nat.mul_add, Nat.add_mul, Nat.mul_comm]
       _ ≤ b * (b + 1) := this
   omega
+
+
+/-- the table condition on the tables measured on the real code: for every bit length `b ≤ 64`
+    every geometric draw `1 … b` is hit by some 53-bit bias word (evaluated in the kernel) -/
+theorem measured_tables_reach : allReach Rapid.Generated.ft = true := by decide +kernel
+
+/-- **every value of `[0, max]` is reachable** by `genUintNBiased` with the measured tables: no
+    unreachable band (the defect D5 of the pinned tree made `[2^63, 2^64-2]` unreachable) -/
+theorem every_uint_reachable (max u : UInt64) (hu : u ≤ max) (fuel : Nat) :
+    ∃ w : UInt64, ∀ (k : UInt64 → Bool → Bool → Prog) (rest : List UInt64) (ts : TS),
+      ∃ l r toks, (uintBiased Rapid.Generated.ft max (fuel + 1) k).run (.buf (w :: u :: rest)) ts =
+        ((k u l r).run (.buf rest) ts).after [w, u] [w, u] toks [] false :=
+  uintBiased_reaches_all _ measured_tables_reach max u hu fuel
+
+/-- every value of every unsigned range `[min, max]` (Uint*, Byte, *Range, *Min, *Max, lengths,
+    indices) is reachable -/
+theorem every_range_value_reachable (min max v : UInt64) (h1 : min ≤ v) (h2 : v ≤ max) (fuel : Nat) :
+    ∃ w : UInt64, ∀ (k : UInt64 → Bool → Bool → Prog) (rest : List UInt64) (ts : TS),
+      ∃ l r toks, (uintRange Rapid.Generated.ft min max true (fuel + 1) k).run (.buf (w :: (v - min) :: rest)) ts =
+        ((k v l r).run (.buf rest) ts).after [w, v - min] [w, v - min] toks [] false :=
+  uintRange_reaches_all _ measured_tables_reach min max v h1 h2 fuel
+
+/-- in particular the edges: minimum and maximum of any range -/
+theorem edges_reachable (min max : UInt64) (h : min ≤ max) (fuel : Nat) :
+    (∃ w : UInt64, ∀ k rest ts, ∃ l r toks, (uintRange Rapid.Generated.ft min max true (fuel + 1) k).run (.buf (w :: (min - min) :: rest)) ts =
+        ((k min l r).run (.buf rest) ts).after [w, min - min] [w, min - min] toks [] false) ∧
+    (∃ w : UInt64, ∀ k rest ts, ∃ l r toks, (uintRange Rapid.Generated.ft min max true (fuel + 1) k).run (.buf (w :: (max - min) :: rest)) ts =
+        ((k max l r).run (.buf rest) ts).after [w, max - min] [w, max - min] toks [] false) :=
+  ⟨every_range_value_reachable min max min (UInt64.le_refl _) h fuel,
+   every_range_value_reachable min max max h (UInt64.le_refl _) fuel⟩
 
 end Rapid.C18
